@@ -391,7 +391,7 @@ pub fn run(p: &Params, rep: &mut Report) {
     for i in 0..rel_texts.len() {
         units.push((1, i));
     }
-    let nested_batches = if p.thorough { 400 } else { 40 };
+    let nested_batches = if p.thorough { 400 } else { 120 };
     for i in 0..nested_batches {
         units.push((2, i));
     }
